@@ -76,9 +76,11 @@ func c13Scenarios(tier string) []schedScenario {
 	// ---- serializer worker pools
 	for _, nw := range []int{1, 2, 3, 4} {
 		top := 2*nw + 1
-		if !thorough && nw >= 3 {
+		if !thorough && nw >= 4 {
 			top = nw + 1
 		}
+		// (3 workers keep the full range in the quick tier too: a worker count that is not a power of two
+		// with more items than one worker's scaled buffers hold is where index arithmetic goes wrong)
 		for n := 0; n <= top; n++ {
 			nw, n := nw, n
 			out = append(out, schedScenario{Name: fmt.Sprintf("MarshalStream/workers=%d/N=%d", nw, n), Class: "marshal", Ordered: true, Want: seq(n), Bound: -1, CapMap: small, Budget: 120 * time.Second,
